@@ -55,7 +55,13 @@ DOCS = [
     ('xml', '<html xmlns="http://www.w3.org/1999/xhtml"><body><form><input type="radio" name="g" id="y1"/><input type="radio" name="g" id="y2" CHECKED=""/>'
      '<input type="RADIO" name="g" id="y3" checked=""/><input type="SUBMIT" id="y4"/><input type="submit" id="y5"/></form>'
      '<form><input type="radio" name="g" id="y6" CHECKED=""/><input type="radio" name="g" id="y7"/></form></body></html>'),
+    # two documents in one tree (iframe) whose root elements get DIFFERENT :root verdicts: stray text next to the inner / the outer root
+    ('html.parser', '<html><body><p id="ra">a</p><iframe id="rf">stray text<html><body><p id="rb">x</p></body></html></iframe><p>z</p></body></html>'),
+    ('html.parser', 'stray text<html><body><p id="rc">a</p><iframe id="rg"><html><body><p id="rd">x</p></body></html></iframe></body></html>'),
 ]
+# edits made through the bs4 API after parsing (to the working tree and to the pristine copy alike): attribute values of the shapes the API
+# permits (lists holding non-strings, bytes, numbers) on attributes that attribute / class selectors read.  Reading them must not rewrite them.
+EDITS = {0: [('p1', 'data-n', [3, '4']), ('p2', 'class', ['a', b'b']), ('s1', 'data-n', 7), ('r1', 'data-n', ['x', ['y']])]}
 NS = {'x': 'urn:x'}
 
 
@@ -96,7 +102,7 @@ SELS = [':lang("")', ':lang(en)', ':lang("*")', ':default', ':indeterminate', ':
         ':has(> :default)', ':nth-child(2 of :lang(en))', ':scope > *', ':lang(de, fr)', 'input:not(:indeterminate)',
         ':-soup-contains(x)', ':enabled', 'x|item:not(:checked)', 'x|item, :checked', ':is(x|item):not(:disabled)', 'x|*', 'p:lang(en)']
 # the order matters for the reduced BFS pools (prefixes of these lists): most history-sensitive first
-SELS += [':scope + tr td', 'form:has(:default)']
+SELS += [':scope + tr td', 'form:has(:default)', '[data-n~="4"]', '.a', '[data-n]:not([data-n="7"])']
 SELS = [SELS[i] for i in (1, 20, 3, 4, 0, 24, 16, 21)] + [x for i, x in enumerate(SELS) if i not in (1, 20, 3, 4, 0, 24, 16, 21)]
 USES_SCOPE = {':scope > *', ':scope + tr td'}
 KINDS = ['select', 'match', 'filter', 'closest', 'select_one', 'iselect1', 'filter_iter']
@@ -108,8 +114,12 @@ def _targets(soup, bs4):
 
 
 def _snapshot(soup, bs4):
-    return (soup.decode(), [id(n) for n in soup.descendants],
-            [(id(n), [(k, v if not isinstance(v, list) else tuple(v)) for k, v in n.attrs.items()])
+    try:
+        ser = soup.decode()
+    except TypeError:          # bs4 cannot serialise lists holding non-strings: a structural serialisation instead
+        ser = [(type(n).__name__, getattr(n, 'name', None), str(n) if not isinstance(n, bs4.Tag) else None) for n in soup.descendants]
+    return (ser, [id(n) for n in soup.descendants],
+            [(id(n), [(k, repr(v), id(v) if isinstance(v, list) else 0) for k, v in n.attrs.items()])
              for n in soup.descendants if isinstance(n, bs4.Tag)])
 
 
@@ -121,6 +131,15 @@ def _run_histories(args):
     sv, bs4 = common.import_repo()
     docs = _all_docs()
     soups = [bs4.BeautifulSoup(m, p) for p, m in docs]
+
+    def edit(d, soup):
+        for eid, k, v in EDITS.get(d, ()):
+            t = soup.find(id=eid)
+            if t is not None:
+                import copy as _c
+                t[k] = _c.deepcopy(v)
+    for d, soup in enumerate(soups):
+        edit(d, soup)
     lines = []
     index = []
     for soup in soups:
@@ -130,6 +149,7 @@ def _run_histories(args):
     for d, soup in enumerate(soups):
         # (copy.deepcopy of an html5lib BeautifulSoup object re-creates html5lib's skeleton: re-parse instead)
         cp = bs4.BeautifulSoup(docs[d][1], docs[d][0])
+        edit(d, cp)
         assert [(type(n).__name__, getattr(n, 'name', None)) for n in cp.descendants] == \
             [(type(n).__name__, getattr(n, 'name', None)) for n in soup.descendants]
         cidx = {id(n): i + 1 for i, n in enumerate(cp.descendants)}
